@@ -2,7 +2,7 @@
    All statements are for every source / destination tree, every amount in Z, every balance table and every
    variable environment. The funding algebra comes from FundingProofs.v. *)
 From Coq Require Import Lia ZArith List Bool.
-From FL Require Import Numscript.Sem Numscript.FundingProofs.
+From FL Require Import Numscript.Sem Numscript.FundingProofs Numscript.Spec.
 Import ListNotations.
 Open Scope Z_scope.
 
@@ -467,7 +467,7 @@ Qed.
    The compiler enforces this statically (VisitAllotment / Compiler.visit_allotment: "the sum of portions might
    be less than 100%"); Sem alone does not, so it is a hypothesis of the `nothing is left over` statements. *)
 Definition allot_exact (ve : venv) (ps : list aportion) : Prop :=
-  forall qs, eval_portions ve ps = SOk qs -> count_remaining qs = 1%nat \/ req (sum_specific qs) ratio_one.
+  forall qs, eval_portions ve ps = SOk qs -> (1 <= count_remaining qs)%nat \/ req (sum_specific qs) ratio_one.
 
 Lemma make_allotment_length : forall ve ps a, make_allotment ve ps = SOk a -> length a = length ps.
 Proof.
@@ -482,6 +482,46 @@ Proof.
   intros ve ps a amount H Hex. unfold make_allotment in H. sb H qs E.
   destruct (new_allotment qs) as [|a'] eqn:En; [discriminate|]. inversion H; subst.
   destruct (allocate_exact a amount (new_allotment_exact _ _ En (Hex _ E))) as [S _]. exact S.
+Qed.
+
+(* a static (syntactic) criterion for exactness, the one compiler.VisitAllotment applies: the allotment has a
+   `remaining` entry, or consists of literal portions that sum to 1 *)
+Definition is_remaining (p : aportion) : bool := match p with APRemaining => true | _ => false end.
+Fixpoint const_sum (ps : list aportion) : option ratio :=
+  match ps with
+  | [] => Some ratio_zero
+  | APConst (Some r) :: rest => match const_sum rest with Some t => Some (ratio_add r t) | None => None end
+  | _ :: _ => None
+  end.
+Definition static_exact (ps : list aportion) : bool :=
+  existsb is_remaining ps || match const_sum ps with Some t => ratio_eq1 t | None => false end.
+
+Lemma eval_portions_remaining : forall ve ps qs, eval_portions ve ps = SOk qs -> existsb is_remaining ps = true ->
+  (1 <= count_remaining qs)%nat.
+Proof.
+  intros ve. induction ps as [|p r IH]; intros qs H Hex; cbn [existsb] in Hex; [discriminate|].
+  cbn [eval_portions] in H. sb H q E. sb H qs' E2. inversion H; subst.
+  destruct p as [o|name|]; cbn [is_remaining orb] in Hex.
+  - specialize (IH _ eq_refl Hex). destruct q; cbn [count_remaining]; lia.
+  - specialize (IH _ eq_refl Hex). destruct q; cbn [count_remaining]; lia.
+  - cbn [eval_portion] in E. inversion E; subst. cbn [count_remaining]. lia.
+Qed.
+Lemma eval_portions_const : forall ve ps qs t, eval_portions ve ps = SOk qs -> const_sum ps = Some t ->
+  sum_specific qs = t.
+Proof.
+  intros ve. induction ps as [|p r IH]; intros qs t H Hc; cbn [eval_portions] in H.
+  - inversion H; subst. cbn in Hc. inversion Hc. reflexivity.
+  - sb H q E. sb H qs' E2. inversion H; subst. cbn [const_sum] in Hc.
+    destruct p as [[rr|]|name|]; try discriminate.
+    destruct (const_sum r) as [t'|] eqn:Et; [|discriminate]. inversion Hc; subst.
+    cbn [eval_portion] in E. inversion E; subst. cbn [sum_specific]. rewrite (IH _ _ eq_refl eq_refl). reflexivity.
+Qed.
+Lemma static_exact_ok : forall ve ps, static_exact ps = true -> allot_exact ve ps.
+Proof.
+  intros ve ps H qs E. unfold static_exact in H. apply orb_true_iff in H. destruct H as [H|H].
+  - left. eapply eval_portions_remaining; eassumption.
+  - right. destruct (const_sum ps) as [t|] eqn:Ec; [|discriminate].
+    rewrite (eval_portions_const _ _ _ _ E Ec). apply ratio_is_one_req. unfold ratio_eq1 in H. apply Z.eqb_eq in H. exact H.
 Qed.
 
 (* ------------------------------------------------------------------------------------------------ *)
@@ -546,6 +586,38 @@ Proof.
     - intros [A B]. constructor; [exact A | apply IH; exact B].
     - intro H. inversion H; subst. split; [assumption | apply IH; assumption]. }
   tauto.
+Qed.
+
+Fixpoint dest_static_exact (d : dest) : bool :=
+  match d with
+  | DAccount _ => true
+  | DInOrder l k =>
+      (fix go (l : list (expr * kod)) : bool :=
+         match l with [] => true | (_, k') :: r => kod_static_exact k' && go r end) l && kod_static_exact k
+  | DAllot l =>
+      static_exact (map fst l) &&
+      (fix go (l : list (aportion * kod)) : bool :=
+         match l with [] => true | (_, k') :: r => kod_static_exact k' && go r end) l
+  end
+with kod_static_exact (k : kod) : bool :=
+  match k with Kept => true | KTo d => dest_static_exact d end.
+
+Lemma dest_static_exact_ok : forall ve d, dest_static_exact d = true -> dest_exact ve d.
+Proof.
+  intro ve.
+  apply (dest_ind2 (fun d => dest_static_exact d = true -> dest_exact ve d)
+                   (fun k => kod_static_exact k = true -> kod_exact ve k)).
+  - intros; exact I.
+  - intros l k HF Hk H. cbn [dest_static_exact] in H. apply andb_true_iff in H. destruct H as [H1 H2].
+    cbn [dest_exact]. split; [|exact (Hk H2)]. clear Hk H2.
+    induction HF as [|[e k'] r Hk' HF IH]; [exact I|]. cbn [snd] in Hk'. apply andb_true_iff in H1. destruct H1 as [A B].
+    split; [exact (Hk' A) | exact (IH B)].
+  - intros l HF H. cbn [dest_static_exact] in H. apply andb_true_iff in H. destruct H as [H0 H1].
+    cbn [dest_exact]. split; [apply static_exact_ok; exact H0|]. clear H0.
+    induction HF as [|[e k'] r Hk' HF IH]; [exact I|]. cbn [snd] in Hk'. apply andb_true_iff in H1. destruct H1 as [A B].
+    split; [exact (Hk' A) | exact (IH B)].
+  - intros; exact I.
+  - intros d Hd H. cbn [kod_static_exact] in H. cbn [kod_exact]. exact (Hd H).
 Qed.
 
 (* ------------------------------------------------------------------------------------------------ *)
@@ -1207,4 +1279,794 @@ Proof.
     + rewrite Z.min_l by lia. reflexivity.
     + rewrite Z.min_r by lia. rewrite <- (funits_length f0 N0), Nat2Z.id, !firstn_all2; try reflexivity.
       rewrite <- (Nat2Z.id (length (funits f0))), (funits_length f0 N0). apply Z2Nat.inj_le; lia.
+Qed.
+
+(* ------------------------------------------------------------------------------------------------ *)
+(** * (e) Sem refines Spec: flow *)
+
+Lemma combine_split : forall (A B : Type) (b1 b2 : list B) (a : list A),
+  combine a (b1 ++ b2) = combine a b1 ++ combine (skipn (length b1) a) b2.
+Proof.
+  induction b1 as [|y b1 IH]; intros b2 a; [rewrite combine_nil; reflexivity|].
+  destruct a as [|x a]; [reflexivity|]. cbn [app combine length skipn]. rewrite IH. reflexivity.
+Qed.
+Lemma combine_app_l_exact : forall (A B : Type) (a1 a2 : list A) (b : list B), length a1 = length b ->
+  combine (a1 ++ a2) b = combine a1 b.
+Proof.
+  intros A B a1 a2 b H. rewrite <- (app_nil_r b) at 1. rewrite combine_app_same by assumption.
+  rewrite combine_nil, app_nil_r. reflexivity.
+Qed.
+
+Lemma move_pairs_app : forall l1 l2, move_pairs (l1 ++ l2) = move_pairs l1 ++ move_pairs l2.
+Proof. intros; unfold move_pairs; apply flat_map_app. Qed.
+Lemma dunits_app : forall l1 l2, dunits (l1 ++ l2) = dunits l1 ++ dunits l2.
+Proof. intros; unfold dunits; apply flat_map_app. Qed.
+
+Lemma skipn_repeat_app : forall (A : Type) (a : A) n k (l : list A), (k <= n)%nat ->
+  skipn k (repeat a n ++ l) = repeat a (n - k) ++ l.
+Proof.
+  intros A a n k l H. rewrite skipn_app, repeat_length. replace (k - n)%nat with 0%nat by lia. cbn [skipn]. f_equal.
+  revert k H. induction n; intros k H; [destruct k; [reflexivity|lia]|].
+  destruct k; [reflexivity|]. cbn [repeat skipn Nat.sub]. apply IHn. lia.
+Qed.
+
+(* filling one demand takes the first [need] coins *)
+Lemma fill_spec : forall ps dst need ms r, fill ps dst need = (ms, r) -> nonneg_parts ps ->
+  move_pairs ms = combine (units ps) (repeat dst (Z.to_nat need)) /\
+  units r = skipn (Z.to_nat need) (units ps) /\ nonneg_parts r.
+Proof.
+  induction ps as [|[a amt] rest IH]; intros dst need ms r H Hnn; cbn [fill] in H.
+  - inversion H; subst. splits; [reflexivity | rewrite skipn_nil; reflexivity | constructor].
+  - apply nonneg_parts_cons in Hnn. destruct Hnn as [Ha Hrest]. cbn [snd] in Ha.
+    destruct (need <=? 0) eqn:E0.
+    + apply Z.leb_le in E0. inversion H; subst. replace (Z.to_nat need) with 0%nat by lia.
+      cbn [repeat skipn]. rewrite combine_nil. splits; try reflexivity. apply nonneg_parts_cons; split; assumption.
+    + apply Z.leb_gt in E0. destruct (need <? amt) eqn:E1.
+      * apply Z.ltb_lt in E1. inversion H; subst. rewrite !units_cons. cbn [fst snd]. splits.
+        -- unfold move_pairs; cbn [flat_map fst snd]. rewrite app_nil_r.
+           replace amt with (need + (amt - need)) at 1 by lia. rewrite repeat_add_Z by lia.
+           rewrite <- app_assoc. rewrite <- (app_nil_r (repeat dst (Z.to_nat need))) at 1.
+           rewrite combine_app_same by (rewrite !repeat_length; reflexivity).
+           rewrite combine_repeat, combine_nil, app_nil_r. reflexivity.
+        -- rewrite skipn_repeat_app by lia. f_equal. f_equal. lia.
+        -- apply nonneg_parts_cons; cbn [snd]; split; [lia | assumption].
+      * apply Z.ltb_ge in E1. destruct (fill rest dst (need - amt)) as [ms' r'] eqn:Er. inversion H; subst.
+        destruct (IH _ _ _ _ Er Hrest) as (I1 & I2 & I3). rewrite !units_cons. cbn [fst snd]. splits.
+        -- unfold move_pairs in *; cbn [flat_map fst snd]. rewrite I1.
+           replace need with (amt + (need - amt)) at 2 by lia. rewrite repeat_add_Z by lia.
+           rewrite combine_app_same by (rewrite !repeat_length; reflexivity). rewrite combine_repeat. reflexivity.
+        -- rewrite I2. rewrite skipn_app.
+           rewrite (skipn_all2 (repeat a (Z.to_nat amt))) by (rewrite repeat_length; lia).
+           rewrite repeat_length. cbn [app]. f_equal. lia.
+        -- assumption.
+Qed.
+
+(* flow pairs the coins of the parts with the coins of the demands, position by position *)
+Theorem flow_pairs : forall ds ps, nonneg_parts ps -> move_pairs (flow ps ds) = combine (units ps) (dunits ds).
+Proof.
+  induction ds as [|[dst need] r IH]; intros ps Hnn; cbn [flow].
+  - cbn. rewrite combine_nil. reflexivity.
+  - destruct (fill ps dst need) as [ms ps'] eqn:Ef. destruct (fill_spec _ _ _ _ _ Ef Hnn) as (F1 & F2 & F3).
+    rewrite move_pairs_app, F1, (IH _ F3), F2. unfold dunits at 2. cbn [flat_map fst snd]. fold (dunits r).
+    rewrite combine_split, repeat_length. reflexivity.
+Qed.
+
+(* the loops of [demands] under names *)
+Definition dem_inorder_go (ve : venv) :=
+  fix go (l : list (expr * kod)) (R : Z) : sres (list demand * Z * Z) :=
+    match l with
+    | [] => SOk ([], 0, R)
+    | (amt_e, k) :: rest =>
+        sdo '(_, m) <- eval_monetary ve amt_e;
+        sdo '(ds1, kp1) <- kod_demands ve k (Z.min m R);
+        sdo '(ds2, kp2, R') <- go rest (R - Z.min m R);
+        SOk (ds1 ++ ds2, kp1 + kp2, R')
+    end.
+Definition dem_allot_go (ve : venv) :=
+  fix go (l : list (aportion * kod)) (shares : list Z) : sres (list demand * Z) :=
+    match l, shares with
+    | [], _ => SOk ([], 0)
+    | (_, k) :: rest, s :: ss =>
+        sdo '(ds1, kp1) <- kod_demands ve k s;
+        sdo '(ds2, kp2) <- go rest ss;
+        SOk (ds1 ++ ds2, kp1 + kp2)
+    | _ :: _, [] => SErr EInvalidScript
+    end.
+Lemma demands_DInOrder : forall ve l rem_k T,
+  demands ve (DInOrder l rem_k) T =
+  (sdo '(ds, kp, R) <- dem_inorder_go ve l T; sdo '(ds2, kp2) <- kod_demands ve rem_k R; SOk (ds ++ ds2, kp + kp2)).
+Proof. reflexivity. Qed.
+Lemma demands_DAllot : forall ve l T,
+  demands ve (DAllot l) T =
+  (sdo a <- make_allotment ve (map fst l);
+   sdo '(ds, kp) <- dem_allot_go ve l (allocate a T); SOk (ds, kp + (T - sumZ (allocate a T)))).
+Proof. reflexivity. Qed.
+
+Definition dest_dem_ok (ve : venv) (d : dest) : Prop :=
+  forall f st lo st', sem_dest ve d f st = SOk (lo, st') -> fnonneg f ->
+  exists new ds kp, s_posts st' = s_posts st ++ new /\ demands ve d (total f) = SOk (ds, kp) /\
+                    post_dunits new = dunits ds /\ total lo = kp.
+Definition kod_dem_ok (ve : venv) (k : kod) : Prop :=
+  forall f st lo st', sem_kod ve k f st = SOk (lo, st') -> fnonneg f ->
+  exists new ds kp, s_posts st' = s_posts st ++ new /\ kod_demands ve k (total f) = SOk (ds, kp) /\
+                    post_dunits new = dunits ds /\ total lo = kp.
+
+(* once the entries have been offered more than is left, the deficit only grows: the final Take must fail *)
+Lemma inorder_go_deficit : forall ve l f acc st f1 kt st1,
+  inorder_go ve l f acc st = SOk (f1, kt, st1) -> fnonneg f -> total f1 - kt <= total f - acc.
+Proof.
+  intros ve. induction l as [|[e k] l IH]; intros f acc st f1 kt st1 H Hf; cbn [inorder_go] in H.
+  - inversion H; subst. lia.
+  - fold (inorder_go ve) in H.
+    sb H q Em. destruct q as [ms mamt].
+    destruct (mamt <? 0) eqn:Hneg; [discriminate|]. apply Z.ltb_ge in Hneg.
+    destruct (negb (N.eqb (f_asset f) ms)) eqn:Has; [discriminate|].
+    destruct (take_max f mamt) as [res rem] eqn:Htm.
+    destruct (take_max_spec _ _ _ _ Htm Hneg Hf) as (T1 & T2 & T3 & T4 & T5 & T6 & T7).
+    sb H p Ek. destruct p as [x st']. sb H f' Eas.
+    destruct (entry_step _ _ _ _ _ _ _ _ _ (sem_kod_ok ve k) Hf T3 T4 T5 T6 T7 Ek Eas) as (N' & _ & Tf' & _).
+    specialize (IH _ _ _ _ _ _ H N'). pose proof (total_nonneg _ Hf). lia.
+Qed.
+
+Lemma inorder_go_dem : forall ve l, Forall (fun ek => kod_dem_ok ve (snd ek)) l ->
+  forall f acc st f1 kt st1, inorder_go ve l f acc st = SOk (f1, kt, st1) -> fnonneg f ->
+  0 <= acc -> kt <= total f1 ->
+  exists new ds kp, s_posts st1 = s_posts st ++ new /\
+    dem_inorder_go ve l (total f - acc) = SOk (ds, kp, total f1 - kt) /\
+    post_dunits new = dunits ds /\ kt = acc + kp.
+Proof.
+  intros ve l HF. induction HF as [|[e k] l Hk HF IH]; intros f acc st f1 kt st1 H Hf Hacc Hfin; cbn [inorder_go] in H.
+  - inversion H; subst. exists [], [], 0. cbn [dem_inorder_go]. rewrite app_nil_r. splits; try reflexivity; lia.
+  - fold (inorder_go ve) in H. cbn [snd] in Hk.
+    sb H q Em. destruct q as [ms mamt].
+    destruct (mamt <? 0) eqn:Hneg; [discriminate|]. apply Z.ltb_ge in Hneg.
+    destruct (negb (N.eqb (f_asset f) ms)) eqn:Has; [discriminate|].
+    destruct (take_max f mamt) as [res rem] eqn:Htm.
+    destruct (take_max_spec _ _ _ _ Htm Hneg Hf) as (T1 & T2 & T3 & T4 & T5 & T6 & T7).
+    sb H p Ek. destruct p as [x st']. sb H f' Eas.
+    destruct (entry_step _ _ _ _ _ _ _ _ _ (sem_kod_ok ve k) Hf T3 T4 T5 T6 T7 Ek Eas) as (N' & _ & Tf' & new0 & M0 & _).
+    assert (Nx : 0 <= total x).
+    { destruct (sem_kod_ok ve k _ _ _ _ Ek T3) as (nn & (_ & _ & _ & Nx & _) & _). apply total_nonneg; assumption. }
+    pose proof (inorder_go_deficit _ _ _ _ _ _ _ _ H N') as Def.
+    pose proof (total_nonneg _ Hf) as Htf.
+    destruct (Hk _ _ _ _ Ek T3) as (new1 & ds1 & kp1 & P1 & D1 & U1 & K1).
+    destruct (IH _ _ _ _ _ _ H N' ltac:(lia) Hfin) as (new2 & ds2 & kp2 & P2 & D2 & U2 & K2).
+    exists (new1 ++ new2), (ds1 ++ ds2), (kp1 + kp2).
+    splits.
+    + rewrite P2, P1, app_assoc. reflexivity.
+    + cbn [dem_inorder_go]. fold (dem_inorder_go ve). rewrite Em. cbn [sbind].
+      assert (Emin : Z.min mamt (total f - acc) = total res) by lia.
+      rewrite Emin, D1. cbn [sbind].
+      replace (total f - acc - total res) with (total f' - (acc + total x)) by lia.
+      rewrite D2. cbn [sbind]. reflexivity.
+    + rewrite post_dunits_app, dunits_app, U1, U2. reflexivity.
+    + lia.
+Qed.
+
+Lemma allot_go_dem : forall ve l, Forall (fun pk => kod_dem_ok ve (snd pk)) l ->
+  forall parts f st lo st', allot_go ve l parts f st = SOk (lo, st') -> fnonneg f ->
+  exists new ds kp, s_posts st' = s_posts st ++ new /\
+    dem_allot_go ve l parts = SOk (ds, kp) /\
+    post_dunits new = dunits ds /\ total lo = total f - sumZ (firstn (length l) parts) + kp.
+Proof.
+  intros ve l HF. induction HF as [|[e k] l Hk HF IH]; intros parts f st lo st' H Hf; cbn [allot_go] in H.
+  - inversion H; subst. exists [], [], 0. cbn [dem_allot_go length firstn]. rewrite app_nil_r, sumZ_nil.
+    splits; try reflexivity; lia.
+  - fold (allot_go ve) in H. cbn [snd] in Hk. destruct parts as [|p ps]; [discriminate|].
+    destruct (take f p) as [[res rem]|] eqn:Ht; [|discriminate].
+    destruct (take_some _ _ _ _ Ht Hf) as (T0 & T1 & T2 & T3 & T4 & T5 & T6 & T7).
+    sb H q Ek. destruct q as [x st1]. sb H f' Eas.
+    destruct (entry_step _ _ _ _ _ _ _ _ _ (sem_kod_ok ve k) Hf T3 T4 T5 T6 T7 Ek Eas) as (N' & _ & Tf' & _).
+    destruct (Hk _ _ _ _ Ek T3) as (new1 & ds1 & kp1 & P1 & D1 & U1 & K1).
+    destruct (IH _ _ _ _ _ H N') as (new2 & ds2 & kp2 & P2 & D2 & U2 & K2).
+    exists (new1 ++ new2), (ds1 ++ ds2), (kp1 + kp2). splits.
+    + rewrite P2, P1, app_assoc. reflexivity.
+    + cbn [dem_allot_go]. fold (dem_allot_go ve). rewrite <- T1, D1. cbn [sbind]. rewrite D2. reflexivity.
+    + rewrite post_dunits_app, dunits_app, U1, U2. reflexivity.
+    + cbn [length firstn]. rewrite sumZ_cons. lia.
+Qed.
+
+Theorem sem_dest_dem_ok : forall ve d, dest_dem_ok ve d.
+Proof.
+  intro ve. apply (dest_ind2 (dest_dem_ok ve) (kod_dem_ok ve)).
+  - (* account *)
+    intros e f st lo st' H Hf. cbn [sem_dest] in H.
+    destruct (take f (total f)) as [[res rem]|] eqn:Ht; [|discriminate].
+    sb H a Ea. inversion H; subst.
+    destruct (take_some _ _ _ _ Ht Hf) as (T0 & T1 & T2 & T3 & T4 & T5 & T6 & T7).
+    exists (mk_posts a res), [(a, total f)], 0. cbn [demands]. rewrite Ea. cbn [sbind]. splits.
+    + apply do_send_posts.
+    + reflexivity.
+    + rewrite mk_posts_dunits by assumption. unfold dunits; cbn [flat_map fst snd]. rewrite app_nil_r, T1. reflexivity.
+    + lia.
+  - (* in order *)
+    intros l k HF Hk f st lo st' H Hf. rewrite sem_dest_DInOrder in H.
+    sb H p E. destruct p as [[f1 kt] st1].
+    assert (HFok : Forall (fun ek : expr * kod => kod_ok ve (snd ek)) l)
+      by (apply Forall_forall; intros; apply sem_kod_ok).
+    destruct (inorder_go_ok _ _ HFok _ _ _ _ _ _ E Hf) as (new0 & (_ & _ & _ & N1 & _ & _) & _).
+    destruct (take (freverse f1) kt) as [[res rem]|] eqn:Ht; [|discriminate].
+    destruct (take_some _ _ _ _ Ht (freverse_nonneg _ N1)) as (T0 & T1 & T2 & T3 & T4 & T5 & T6 & T7).
+    rewrite freverse_total in T2. pose proof (total_nonneg _ T4) as Hrem.
+    destruct (inorder_go_dem _ _ HF _ _ _ _ _ _ E Hf ltac:(lia) ltac:(lia)) as (new1 & ds1 & kp1 & P1 & D1 & U1 & K1).
+    sb H q Ek. destruct q as [x st2]. sb H r Eas. inversion H; subst.
+    destruct (Hk _ _ _ _ Ek (freverse_nonneg _ T4)) as (new2 & ds2 & kp2 & P2 & D2 & U2 & K2).
+    rewrite freverse_total in D2.
+    destruct (sem_kod_ok ve k _ _ _ _ Ek (freverse_nonneg _ T4)) as (nn & (_ & _ & _ & Nx & _ & _) & _).
+    destruct (assemble_two_spec _ _ _ Eas Nx (freverse_nonneg _ T3)) as (_ & _ & B3 & _ & _).
+    rewrite freverse_total in B3.
+    exists (new1 ++ new2), (ds1 ++ ds2), (kp1 + kp2). splits.
+    + rewrite P2, P1, app_assoc. reflexivity.
+    + rewrite demands_DInOrder. rewrite Z.sub_0_r in D1. rewrite D1. cbn [sbind].
+      rewrite <- T2, D2. reflexivity.
+    + rewrite post_dunits_app, dunits_app, U1, U2. reflexivity.
+    + lia.
+  - (* allotment *)
+    intros l HF f st lo st' H Hf. rewrite sem_dest_DAllot in H. sb H a Ea.
+    destruct (allot_go_dem _ _ HF _ _ _ _ _ H Hf) as (new & ds & kp & P & D & U & K).
+    rewrite firstn_all2 in K by (rewrite allocate_length, (make_allotment_length _ _ _ Ea), map_length; lia).
+    exists new, ds, (kp + (total f - sumZ (allocate a (total f)))). splits; try assumption.
+    + rewrite demands_DAllot, Ea. cbn [sbind]. rewrite D. reflexivity.
+    + lia.
+  - (* kept *)
+    intros f st lo st' H Hf. cbn [sem_kod] in H. inversion H; subst.
+    exists [], [], (total lo). rewrite app_nil_r. splits; reflexivity.
+  - (* to d *)
+    intros d Hd f st lo st' H Hf. cbn [sem_kod] in H. exact (Hd _ _ _ _ H Hf).
+Qed.
+
+(* (e), destinations: a destination that succeeds sends exactly [flow] of the funding it was given over the
+   demands the specification computes -- coin by coin (who pays whom, in which order) -- and returns the
+   specified kept amount. With `kept`, nested to any depth. *)
+Theorem sem_dest_refines_spec : forall ve d f st lo st',
+  sem_dest ve d f st = SOk (lo, st') -> fnonneg f ->
+  exists new ds kp,
+    s_posts st' = s_posts st ++ new /\
+    demands ve d (total f) = SOk (ds, kp) /\
+    total lo = kp /\
+    post_pairs new = move_pairs (flow (f_parts f) ds) /\
+    funits lo = skipn (Z.to_nat (total f - kp)) (funits f).
+Proof.
+  intros ve d f st lo st' H Hf.
+  destruct (sem_dest_dem_ok ve d _ _ _ _ H Hf) as (new & ds & kp & P & D & U & K).
+  destruct (sem_dest_ok ve d _ _ _ _ H Hf) as (new' & M & _).
+  pose proof (moved_total _ _ _ _ _ _ M Hf) as Tot.
+  destruct M as (P' & Nn & _ & Nl & _ & M6).
+  assert (new' = new) by (rewrite P in P'; apply app_inv_head in P'; congruence). subst new'.
+  exists new, ds, kp. splits; try assumption.
+  - rewrite post_pairs_combine, (flow_pairs _ _ Hf), <- U. fold (funits f). rewrite <- M6.
+    rewrite combine_app_l_exact by (symmetry; apply post_dunits_length). reflexivity.
+  - destruct (app_eq_firstn_skipn _ _ _ _ M6) as [_ E2]. rewrite E2. f_equal.
+    rewrite <- (Nat2Z.id (length (post_units new))), (post_units_length _ Nn). f_equal. lia.
+Qed.
+
+(* (e) for a whole send, relative to the funding the sources hand over *)
+Theorem send_refines_spec : forall ve m src d st st',
+  sem_send ve m src d st = SOk st' ->
+  exists f st1 new mvs,
+    send_funding ve m src st = SOk (f, st1) /\ fnonneg f /\
+    s_posts st' = s_posts st ++ new /\
+    spec_moves ve d (f_parts f) = SOk mvs /\
+    post_pairs new = move_pairs mvs.
+Proof.
+  intros ve m src d st st' H. rewrite sem_send_eq in H.
+  sb H p E. destruct p as [f st1]. sb H q Ed. destruct q as [lo st2].
+  destruct (send_funding_ok _ _ _ _ _ _ E) as [Nf Pf].
+  destruct (sem_dest_refines_spec _ _ _ _ _ _ Ed Nf) as (new & ds & kp & P & D & K & PP & _).
+  exists f, st1, new, (flow (f_parts f) ds). splits; try assumption; try reflexivity.
+  - rewrite (do_repay_posts _ _ _ H), P, Pf. reflexivity.
+  - unfold spec_moves. fold (total f). rewrite D. reflexivity.
+Qed.
+
+(* ------------------------------------------------------------------------------------------------ *)
+(** * (e) Sem refines Spec: sources *)
+
+Lemma clip_take_loop : forall ps m t r mm, take_loop m ps = (t, r, mm) -> clip m ps = (t, r).
+Proof.
+  induction ps as [|[a x] rest IH]; intros m t r mm H; cbn [take_loop clip] in *.
+  - inversion H; reflexivity.
+  - destruct (0 <? m) eqn:E.
+    + apply Z.ltb_lt in E. destruct (m <=? 0) eqn:E2; [apply Z.leb_le in E2; lia|].
+      destruct (m <? x); [inversion H; reflexivity|].
+      destruct (take_loop (m - x) rest) as [[t' r'] m'] eqn:Er. inversion H; subst.
+      rewrite (IH _ _ _ _ Er). reflexivity.
+    + apply Z.ltb_ge in E. destruct (m <=? 0) eqn:E2; [|apply Z.leb_gt in E2; lia]. inversion H; reflexivity.
+Qed.
+Lemma clip_take_max : forall f m res rem, take_max f m = (res, rem) ->
+  clip m (f_parts f) = (f_parts res, f_parts rem) /\ f_asset res = f_asset f /\ f_asset rem = f_asset f.
+Proof.
+  intros f m res rem H. unfold take_max in H. destruct (take_loop m (f_parts f)) as [[t r] mm] eqn:E.
+  inversion H; subst. cbn [f_parts f_asset]. splits; try reflexivity. eapply clip_take_loop; eassumption.
+Qed.
+
+Lemma give_back_repay : forall g b s b', repay b s g = Some b' -> give_back b s g = b'.
+Proof.
+  induction g as [|[a amt] r IH]; intros b s b' H; cbn [repay] in H.
+  - inversion H; reflexivity.
+  - unfold give_back. cbn [fold_left fst snd]. fold (give_back (if N.eqb a world then b else
+        bal_set b a s (match bal_get b a s with Some z => z | None => 0 end + amt)) s r).
+    destruct (N.eqb a world); [apply IH; assumption|].
+    destruct (bal_has_account b a); [apply IH; assumption | discriminate].
+Qed.
+Lemma do_repay_give_back : forall st f st', do_repay st f = SOk st' ->
+  s_bals st' = give_back (s_bals st) (f_asset f) (f_parts f).
+Proof.
+  intros st f st' H. unfold do_repay in H. destruct (repay (s_bals st) (f_asset f) (f_parts f)) as [b|] eqn:E; [|discriminate].
+  inversion H; subst. cbn [with_bals s_bals]. symmetry. apply give_back_repay; assumption.
+Qed.
+
+Lemma bal_set_same : forall b a s z, bal_get b a s = Some z -> bal_set b a s z = b.
+Proof.
+  induction b as [|[[a' s'] z'] r IH]; intros a s z H; cbn [bal_get bal_set] in *; [discriminate|].
+  destruct (N.eqb a a' && N.eqb s s') eqn:E.
+  - inversion H; subst. apply andb_true_iff in E. destruct E as [E1 E2]. apply N.eqb_eq in E1, E2. subst. reflexivity.
+  - rewrite (IH _ _ _ H). reflexivity.
+Qed.
+
+Lemma assemble_two_parts : forall x y r, assemble [x; y] = SOk r -> f_parts r = concat_parts (f_parts x) (f_parts y).
+Proof.
+  intros x y r H. unfold assemble in H. cbn [rev app] in H.
+  destruct (forallb (fun f => N.eqb (f_asset f) (f_asset y)) [x; y]); [|discriminate]. inversion H; reflexivity.
+Qed.
+
+(* the fallback tail of Sem is [cover] *)
+Lemma sem_cover : forall ve fbe st2 ms tot amt res r st',
+  (sdo a <- eval_account ve fbe;
+   match withdraw_always (s_bals st2) a ms (if tot <? amt then amt - tot else 0) with
+   | None => SErr EInvalidScript
+   | Some (extra, b) => sdo r <- assemble [res; extra]; SOk (r, with_bals st2 b)
+   end) = SOk (r, st') ->
+  cover ve (Some fbe) (s_bals st2) ms tot amt (f_parts res) = SOk (f_parts r, s_bals st').
+Proof.
+  intros ve fbe st2 ms tot amt res r st' H. unfold cover. sb H a Ea. cbn [sbind].
+  unfold withdraw_always in H. destruct (bal_get (s_bals st2) a ms) as [bal|]; [|discriminate].
+  sb H r' Eas. inversion H; subst. cbn [with_bals s_bals].
+  rewrite (assemble_two_parts _ _ _ Eas). cbn [f_parts].
+  assert (Em : (if tot <? amt then amt - tot else 0) = Z.max 0 (amt - tot)).
+  { destruct (tot <? amt) eqn:E; [apply Z.ltb_lt in E | apply Z.ltb_ge in E]; lia. }
+  rewrite Em. reflexivity.
+Qed.
+
+Definition sp_go (ve : venv) (za : asset) :=
+  fix go (l : list source) (acc : list part) (b : balances) : sres (list part * balances) :=
+    match l with
+    | [] => SOk (acc, b)
+    | s1 :: rest => sdo '(ps, b1) <- source_parts ve za s1 b; go rest (concat_parts acc ps) b1
+    end.
+Lemma source_parts_SInOrder : forall ve za srcs b, source_parts ve za (SInOrder srcs) b = sp_go ve za srcs [] b.
+Proof. reflexivity. Qed.
+
+Definition source_parts_ok (ve : venv) (s : source) : Prop :=
+  forall za st f st1, sem_source ve za s st = SOk (f, st1) ->
+  source_parts ve za s (s_bals st) = SOk (f_parts f, s_bals st1).
+
+Lemma sp_go_ok : forall ve za l, Forall (source_parts_ok ve) l ->
+  forall st fs st1 acc, src_go ve za l st = SOk (fs, st1) ->
+  sp_go ve za l acc (s_bals st) = SOk (concat_all fs acc, s_bals st1).
+Proof.
+  intros ve za l HF. induction HF as [|s l Hs HF IH]; intros st fs st1 acc H; cbn [src_go] in H.
+  - inversion H; subst. reflexivity.
+  - fold (src_go ve za) in H. sb H p E. destruct p as [f st']. sb H q E2. destruct q as [fs' st2]. inversion H; subst.
+    cbn [sp_go]. fold (sp_go ve za). rewrite (Hs _ _ _ _ E). cbn [sbind].
+    rewrite (IH _ _ _ _ E2). reflexivity.
+Qed.
+
+(* every source computes exactly the parts and the balance table the specification gives *)
+Theorem sem_source_parts : forall ve s, source_parts_ok ve s.
+Proof.
+  intro ve. apply source_ind2.
+  - intros acc ov za st f st1 H. cbn [sem_source] in H. cbn [source_parts].
+    sb H a Ea. sb H p Eo. destruct p as [oa oamt]. cbn [sbind].
+    unfold withdraw_all in H. destruct (bal_get (s_bals st) a oa) as [bal|] eqn:Eb; [|discriminate].
+    destruct (0 <? bal + oamt) eqn:E0; inversion H; subst; cbn [f_parts with_bals s_bals].
+    + apply Z.ltb_lt in E0. rewrite Z.max_r by lia. do 3 f_equal. lia.
+    + apply Z.ltb_ge in E0. rewrite Z.max_l by lia. rewrite Z.sub_0_r, (bal_set_same _ _ _ _ Eb). reflexivity.
+  - intros m s IH za st f st1 H. cbn [sem_source] in H. cbn [source_parts].
+    sb H p E. destruct p as [f0 st0]. rewrite (IH _ _ _ _ E). cbn [sbind].
+    sb H q Em. destruct q as [ms mamt]. cbn [sbind].
+    destruct (mamt <? 0) eqn:Hneg; [discriminate|].
+    destruct (negb (N.eqb (f_asset f0) ms)) eqn:Has; [discriminate|]. apply negb_false_iff, N.eqb_eq in Has.
+    destruct (take_max f0 mamt) as [res rem] eqn:Htm.
+    destruct (clip_take_max _ _ _ _ Htm) as (C & A1 & A2). rewrite C.
+    sb H st2 Er. pose proof (do_repay_give_back _ _ _ Er) as G. rewrite A2, Has in G. rewrite <- G.
+    destruct (fallback_of s) as [fbe|].
+    + fold (total f0). apply sem_cover. exact H.
+    + inversion H; subst. reflexivity.
+  - intros l HF za st f st1 H. rewrite sem_source_SInOrder in H. rewrite source_parts_SInOrder.
+    sb H p E. destruct p as [fs st']. sb H r Eas. inversion H; subst.
+    rewrite (sp_go_ok _ _ _ HF _ _ _ [] E). f_equal. f_equal.
+    unfold assemble in Eas. destruct (rev fs); [discriminate|].
+    destruct (forallb _ fs); [|discriminate]. inversion Eas; reflexivity.
+Qed.
+
+(* TakeFromSource computes [taken_parts], up to zero-amount parts (Take(0) prepends a zero part, which
+   carries no coin); the balance tables agree exactly *)
+Lemma taken_parts_ok : forall ve s za ms n st f0 st0 r st1,
+  sem_source ve za s st = SOk (f0, st0) -> take_from ve (fallback_of s) st0 f0 ms n = SOk (r, st1) ->
+  exists ps, taken_parts ve s za ms n (s_bals st) = SOk (ps, s_bals st1) /\
+             nonneg_parts ps /\ units ps = funits r.
+Proof.
+  intros ve s za ms n st f0 st0 r st1 E H.
+  destruct (sem_source_ok ve s _ _ _ _ E) as [N0 _].
+  destruct (take_from_spec _ _ _ _ _ _ _ _ H N0) as (_ & Nr & _).
+  unfold taken_parts. rewrite (sem_source_parts ve s _ _ _ _ E). cbn [sbind]. unfold take_from in H.
+  destruct (fallback_of s) as [fbe|].
+  - destruct (n <? 0) eqn:Hneg; [discriminate|].
+    destruct (negb (N.eqb (f_asset f0) ms)) eqn:Has; [discriminate|]. apply negb_false_iff, N.eqb_eq in Has.
+    destruct (take_max f0 n) as [res rem] eqn:Htm.
+    destruct (clip_take_max _ _ _ _ Htm) as (C & A1 & A2). rewrite C.
+    sb H st2 Er. pose proof (do_repay_give_back _ _ _ Er) as G. rewrite A2, Has in G. rewrite <- G.
+    fold (total f0). rewrite (sem_cover _ _ _ _ _ _ _ _ _ H).
+    exists (f_parts r). splits; try reflexivity. exact Nr.
+  - destruct (negb (N.eqb (f_asset f0) ms)) eqn:Has; [discriminate|]. apply negb_false_iff, N.eqb_eq in Has.
+    destruct (take f0 n) as [[res rem]|] eqn:Ht; [|discriminate].
+    sb H st2 Er. inversion H; subst.
+    pose proof (do_repay_give_back _ _ _ Er) as G.
+    unfold take in Ht. destruct (take_loop n (f_parts f0)) as [[t r'] mm] eqn:El.
+    destruct (mm =? 0) eqn:Emm; [|discriminate]. apply Z.eqb_eq in Emm. subst mm.
+    rewrite (clip_take_loop _ _ _ _ _ El). unfold cover.
+    assert (Hn : 0 <= n).
+    { destruct (Z_lt_le_dec n 0) as [Hneg|]; [|assumption].
+      rewrite take_loop_nonpos in El by lia. inversion El; lia. }
+    destruct (take_loop_spec _ _ _ _ _ El Hn N0) as (I1 & I2 & I3 & I4 & I5 & I6).
+    inversion Ht; subst. cbn [f_parts f_asset] in G. rewrite G.
+    exists t. unfold funits. cbn [f_parts].
+    set (zp := match f_parts f0 with (a, _) :: _ => if n =? 0 then [(a, n)] else [] | [] => [] end).
+    assert (Z2 : units zp = []).
+    { subst zp. destruct (f_parts f0) as [|[a x] l]; [reflexivity|].
+      destruct (n =? 0) eqn:E0; [|reflexivity]. apply Z.eqb_eq in E0. subst n. reflexivity. }
+    rewrite units_app, Z2. splits; try reflexivity; assumption.
+Qed.
+
+Definition sa_go (ve : venv) (za ms : asset) :=
+  fix go (l : list (aportion * source)) (shares : list Z) (acc : list part) (b : balances) : sres (list part) :=
+    match l, shares with
+    | [], _ => SOk acc
+    | (_, s) :: rest, p :: ps =>
+        sdo '(x, b1) <- taken_parts ve s za ms p b;
+        go rest ps (concat_parts acc x) b1
+    | _ :: _, [] => SErr EInvalidScript
+    end.
+
+Lemma sa_go_ok : forall ve za ms l shares st fs st1,
+  srcallot_go ve za ms l shares st = SOk (fs, st1) ->
+  forall acc, nonneg_parts acc ->
+  exists ps, sa_go ve za ms l shares acc (s_bals st) = SOk ps /\ nonneg_parts ps /\
+             units ps = units acc ++ concat (map funits fs).
+Proof.
+  intros ve za ms. induction l as [|[p s] l IH]; intros shares st fs st1 H acc Hacc; cbn [srcallot_go] in H.
+  - inversion H; subst. exists acc. cbn [sa_go map concat]. rewrite app_nil_r. splits; try reflexivity; assumption.
+  - fold (srcallot_go ve za ms) in H. destruct shares as [|x ps]; [discriminate|].
+    sb H q E. destruct q as [f0 st0]. sb H q2 Et. destruct q2 as [r st2]. sb H q3 Er. destruct q3 as [rs st3].
+    inversion H; subst.
+    destruct (taken_parts_ok _ _ _ _ _ _ _ _ _ _ E Et) as (xp & TP & Nx & Ux).
+    destruct (IH _ _ _ _ Er (concat_parts acc xp) (concat_parts_nonneg _ _ Hacc Nx)) as (ps' & G & Np & Up).
+    exists ps'. cbn [sa_go]. fold (sa_go ve za ms). rewrite TP. cbn [sbind]. rewrite G.
+    splits; try reflexivity; try assumption.
+    rewrite Up, concat_parts_units by assumption. cbn [map concat]. rewrite Ux, app_assoc. reflexivity.
+Qed.
+
+(* what the sources hand to the destination is what the specification says (as coins) *)
+Lemma send_funding_parts : forall ve m src st f st1,
+  send_funding ve m src st = SOk (f, st1) ->
+  exists ps, send_parts ve m src (s_bals st) = SOk ps /\ nonneg_parts ps /\ units ps = funits f /\
+             total_parts ps = total f.
+Proof.
+  intros ve m src st f st1 H. pose proof (send_funding_ok _ _ _ _ _ _ H) as [Nf _].
+  assert (Tot : forall ps, nonneg_parts ps -> units ps = funits f -> total_parts ps = total f).
+  { intros ps Np Up. rewrite <- (units_length ps Np), <- (funits_length f Nf), Up. reflexivity. }
+  unfold send_funding in H. unfold send_parts. destruct m as [e|ae], src as [s|l]; try discriminate.
+  - sb H za Ez. cbn [sbind]. sb H p E. destruct p as [f0 st0].
+    sb H q Em. destruct q as [ms n]. cbn [sbind].
+    destruct (taken_parts_ok _ _ _ _ _ _ _ _ _ _ E H) as (ps & TP & Np & Up).
+    rewrite TP. cbn [sbind]. exists ps. splits; try reflexivity; try assumption. apply Tot; assumption.
+  - sb H za Ez. cbn [sbind]. sb H q Em. destruct q as [ms n]. cbn [sbind]. sb H a Ea. cbn [sbind].
+    sb H p E. destruct p as [fs st']. sb H r Eas. inversion H; subst.
+    destruct (sa_go_ok _ _ _ _ _ _ _ _ E [] nonneg_parts_nil) as (ps & G & Np & Up).
+    fold (sa_go ve za ms). rewrite G. exists ps.
+    destruct (srcallot_go_ok _ _ _ _ _ _ _ _ E) as (I1 & _).
+    destruct (assemble_spec _ _ Eas) as (_ & _ & _ & U). destruct (U I1) as [_ U2].
+    assert (Ups : units ps = funits f) by (rewrite Up, U2; reflexivity).
+    splits; try reflexivity; try assumption. apply Tot; assumption.
+  - sb H a Ea. cbn [sbind]. rewrite (sem_source_parts ve s _ _ _ _ H). cbn [sbind].
+    exists (f_parts f). splits; try reflexivity. exact Nf.
+Qed.
+
+(* (e) THE REFINEMENT: a send that succeeds moves exactly the coins the specification says -- the k-th coin
+   moved is the k-th coin the sources provide (computed from the AST and the balance table alone) and goes to
+   the k-th coin demanded by the destination (computed from the AST and the amount alone). Every source and
+   destination shape, `kept` included. *)
+Theorem send_refines_spec_send : forall ve m src d st st',
+  sem_send ve m src d st = SOk st' ->
+  exists new mvs,
+    s_posts st' = s_posts st ++ new /\
+    spec_send ve m src d (s_bals st) = SOk mvs /\
+    post_pairs new = move_pairs mvs.
+Proof.
+  intros ve m src d st st' H.
+  destruct (send_refines_spec _ _ _ _ _ _ H) as (f & st1 & new & mvs & E & Nf & P & SM & PP).
+  destruct (send_funding_parts _ _ _ _ _ _ E) as (ps & SP & Nps & Ups & Tps).
+  unfold spec_moves in SM. fold (total f) in SM. sb SM q D. destruct q as [ds kp]. inversion SM; subst mvs.
+  exists new, (flow ps ds). splits; try assumption.
+  - unfold spec_send. rewrite SP. cbn [sbind]. unfold spec_moves. rewrite Tps, D. reflexivity.
+  - rewrite PP, (flow_pairs _ _ Nf), (flow_pairs _ _ Nps), Ups. reflexivity.
+Qed.
+
+(* ------------------------------------------------------------------------------------------------ *)
+(** * (e) in terms of posting lists: equality after merging adjacent moves with the same source and
+      destination and dropping zero-amount moves *)
+
+Definition same_ends (s d s' d' : account) : bool := N.eqb s s' && N.eqb d d'.
+
+(* put a move in front of a normalised list *)
+Definition merge_move (m : move) (l : list move) : list move :=
+  match l with
+  | [] => [m]
+  | m' :: r =>
+      if same_ends (fst (fst m)) (snd (fst m)) (fst (fst m')) (snd (fst m'))
+      then (fst (fst m), snd (fst m), snd m + snd m') :: r
+      else m :: l
+  end.
+
+(* run-length encoding of a coin sequence *)
+Fixpoint rle (l : list (account * account)) : list move :=
+  match l with
+  | [] => []
+  | x :: r => merge_move (fst x, snd x, 1) (rle r)
+  end.
+
+(* the normal form of a list of moves: zero (and negative) amounts dropped, adjacent moves with the same source
+   and destination merged *)
+Definition norm_moves (l : list move) : list move := rle (move_pairs l).
+
+Lemma same_ends_refl : forall s d, same_ends s d s d = true.
+Proof. intros; unfold same_ends; rewrite !N.eqb_refl; reflexivity. Qed.
+
+Lemma merge_merge : forall s d a b R,
+  merge_move (s, d, a) (merge_move (s, d, b) R) = merge_move (s, d, a + b) R.
+Proof.
+  intros s d a b [|[[s' d'] n'] r]; cbn [merge_move fst snd].
+  - rewrite same_ends_refl. reflexivity.
+  - destruct (same_ends s d s' d') eqn:E; cbn [merge_move fst snd].
+    + rewrite same_ends_refl. f_equal. f_equal. lia.
+    + rewrite same_ends_refl. reflexivity.
+Qed.
+
+Lemma rle_repeat_app : forall k s d L,
+  rle (repeat (s, d) (S k) ++ L) = merge_move (s, d, Z.of_nat (S k)) (rle L).
+Proof.
+  induction k as [|k IH]; intros s d L.
+  - reflexivity.
+  - change (repeat (s, d) (S (S k)) ++ L) with ((s, d) :: (repeat (s, d) (S k) ++ L)).
+    cbn [rle fst snd]. rewrite IH, merge_merge. f_equal. f_equal. lia.
+Qed.
+
+(* the readable equations of the normal form *)
+Lemma norm_moves_nil : norm_moves [] = [].
+Proof. reflexivity. Qed.
+Lemma norm_moves_cons : forall s d n r,
+  norm_moves ((s, d, n) :: r) = if n <=? 0 then norm_moves r else merge_move (s, d, n) (norm_moves r).
+Proof.
+  intros s d n r. unfold norm_moves, move_pairs. cbn [flat_map fst snd]. fold (move_pairs r).
+  destruct (n <=? 0) eqn:E.
+  - apply Z.leb_le in E. replace (Z.to_nat n) with 0%nat by lia. reflexivity.
+  - apply Z.leb_gt in E. destruct (Z.to_nat n) as [|k] eqn:Ek; [lia|].
+    rewrite rle_repeat_app. f_equal. f_equal. lia.
+Qed.
+
+Definition posting_move (p : posting) : move := (p_src p, p_dst p, p_amount p).
+Lemma move_pairs_postings : forall l, move_pairs (map posting_move l) = post_pairs l.
+Proof. induction l as [|p l IH]; [reflexivity|]. unfold move_pairs, post_pairs in *. cbn [map flat_map]. rewrite IH. reflexivity. Qed.
+
+(* (e) on posting lists: the postings of a successful send, normalised, ARE the normalised flow of the spec *)
+Theorem send_refines_spec_normalised : forall ve m src d st st',
+  sem_send ve m src d st = SOk st' ->
+  exists new mvs,
+    s_posts st' = s_posts st ++ new /\
+    spec_send ve m src d (s_bals st) = SOk mvs /\
+    norm_moves (map posting_move new) = norm_moves mvs.
+Proof.
+  intros ve m src d st st' H.
+  destruct (send_refines_spec_send _ _ _ _ _ _ H) as (new & mvs & P & S & PP).
+  exists new, mvs. splits; try assumption. unfold norm_moves. rewrite move_pairs_postings, PP. reflexivity.
+Qed.
+
+(* ------------------------------------------------------------------------------------------------ *)
+(** * The compiler enforces exactness: a script the (model) compiler accepts has only exact allotments *)
+
+From Coq Require Import QArith.
+Open Scope Z_scope.
+
+Lemma cbind_inv : forall A B (m : comp A) (f : A -> comp B) s r,
+  cbind m f s = Some r -> exists a s', m s = Some (a, s') /\ f a s' = Some r.
+Proof. intros A B m f s r H. unfold cbind in H. destruct (m s) as [[a s']|]; [eauto | discriminate]. Qed.
+Lemma guard_inv : forall b s r, guard b s = Some r -> b = true.
+Proof. intros [|] s r H; [reflexivity | discriminate]. Qed.
+
+Ltac cb H := let a := fresh "a" in let s' := fresh "s" in let E := fresh "E" in
+  apply cbind_inv in H; destruct H as (a & s' & E & H).
+
+Definition is_var (p : aportion) : bool := match p with APVar _ => true | _ => false end.
+Definition is_bad_const (p : aportion) : bool := match p with APConst None => true | _ => false end.
+Fixpoint qsum (l : list aportion) : Q :=
+  match l with
+  | [] => 0%Q
+  | APConst (Some r) :: rest => (Qof r + qsum rest)%Q
+  | _ :: rest => qsum rest
+  end.
+
+Lemma qsum_app : forall l1 l2, Qeq (qsum (l1 ++ l2)) (qsum l1 + qsum l2)%Q.
+Proof.
+  induction l1 as [|p l1 IH]; intro l2; cbn [app qsum]; [ring|].
+  destruct p as [[r|]|n|]; rewrite ?IH; ring.
+Qed.
+Lemma qsum_rev : forall l, Qeq (qsum (rev l)) (qsum l).
+Proof.
+  induction l as [|p l IH]; [reflexivity|]. cbn [rev]. rewrite qsum_app, IH.
+  destruct p as [[r|]|n|]; cbn [qsum]; ring.
+Qed.
+Lemma existsb_rev : forall (A : Type) (f : A -> bool) l, existsb f (rev l) = existsb f l.
+Proof.
+  intros A f l. destruct (existsb f l) eqn:E.
+  - apply existsb_exists in E. destruct E as (x & Hin & Hx). apply existsb_exists. exists x. split; [apply in_rev in Hin |]; assumption.
+  - destruct (existsb f (rev l)) eqn:E2; [|reflexivity]. apply existsb_exists in E2. destruct E2 as (x & Hin & Hx).
+    apply in_rev in Hin. assert (existsb f l = true) by (apply existsb_exists; eauto). congruence.
+Qed.
+
+Lemma visit_portions_rev_inv : forall l acc0 s acc s',
+  visit_portions_rev l acc0 s = Some (acc, s') ->
+  aa_rem acc = aa_rem acc0 || existsb is_remaining l /\
+  aa_var acc = aa_var acc0 || existsb is_var l /\
+  existsb is_bad_const l = false /\
+  Qeq (Qof (aa_total acc)) (Qof (aa_total acc0) + qsum l)%Q.
+Proof.
+  induction l as [|p l IH]; intros acc0 s acc s' H; cbn [visit_portions_rev] in H.
+  - inversion H; subst. cbn [existsb qsum]. rewrite !orb_false_r. splits; try reflexivity. ring.
+  - destruct p as [[r|]|name|].
+    + cb H. cb H. destruct (IH _ _ _ _ H) as (I1 & I2 & I3 & I4). cbn [aa_rem aa_var aa_total] in *.
+      cbn [existsb is_remaining is_var is_bad_const orb qsum]. splits; try assumption.
+      rewrite I4, Qof_add. ring.
+    + discriminate.
+    + cb H. destruct a as [ty idx]. cb H. destruct (IH _ _ _ _ H) as (I1 & I2 & I3 & I4). cbn [aa_rem aa_var aa_total] in *.
+      cbn [existsb is_remaining is_var is_bad_const orb qsum]. splits; try assumption.
+      rewrite I2. rewrite orb_true_r. reflexivity.
+    + cb H. cb H. cb H. destruct (IH _ _ _ _ H) as (I1 & I2 & I3 & I4). cbn [aa_rem aa_var aa_total] in *.
+      cbn [existsb is_remaining is_var is_bad_const orb qsum]. splits; try assumption.
+      rewrite I1. rewrite orb_true_r. reflexivity.
+Qed.
+
+Lemma const_sum_all : forall ps, existsb is_remaining ps = false -> existsb is_var ps = false ->
+  existsb is_bad_const ps = false -> exists t, const_sum ps = Some t /\ Qeq (Qof t) (qsum ps).
+Proof.
+  induction ps as [|p ps IH]; intros H1 H2 H3.
+  - exists ratio_zero. split; reflexivity.
+  - destruct p as [[r|]|n|]; cbn [existsb is_remaining is_var is_bad_const orb] in *; try discriminate.
+    destruct (IH H1 H2 H3) as (t & Ec & Eq). exists (ratio_add r t). cbn [const_sum qsum]. rewrite Ec.
+    split; [reflexivity|]. rewrite Qof_add, Eq. reflexivity.
+Qed.
+
+Lemma ratio_eq1_Q : forall t, ratio_eq1 t = true <-> Qeq (Qof t) 1%Q.
+Proof.
+  intros [n d]. unfold ratio_eq1, Qof, Qeq; cbn [fst snd Qnum Qden]. rewrite Z.eqb_eq. lia.
+Qed.
+
+Lemma visit_allotment_static : forall ps s r, visit_allotment ps s = Some r -> static_exact ps = true.
+Proof.
+  intros ps s r H. unfold visit_allotment in H. cb H.
+  destruct (visit_portions_rev_inv _ _ _ _ _ E) as (I1 & I2 & I3 & I4). cbn [aa_rem aa_var aa_total orb] in *.
+  rewrite existsb_rev in I1, I2, I3. rewrite qsum_rev in I4. rewrite Qof_zero in I4.
+  cb H. apply guard_inv in E0. cb H. apply guard_inv in E1. cb H. apply guard_inv in E2. cb H. apply guard_inv in E3.
+  unfold static_exact. destruct (existsb is_remaining ps) eqn:Er; [reflexivity|]. cbn [orb].
+  rewrite I1 in E1. cbn [negb andb] in E1. rewrite andb_true_r in E1.
+  apply negb_true_iff in E0. apply negb_true_iff in E1.
+  assert (Eq1 : ratio_eq1 (aa_total a) = true).
+  { unfold ratio_gt1 in E0. unfold ratio_lt1 in E1. unfold ratio_eq1. apply Z.ltb_ge in E0, E1. apply Z.eqb_eq. lia. }
+  rewrite Eq1 in E2. cbn [andb] in E2. apply negb_true_iff in E2. rewrite I2 in E2.
+  destruct (const_sum_all ps Er E2 I3) as (t & Ec & Eqt). rewrite Ec.
+  apply ratio_eq1_Q. rewrite Eqt. apply ratio_eq1_Q in Eq1. rewrite I4 in Eq1. rewrite <- Eq1. ring.
+Qed.
+
+(* the loops of visit_dest under names *)
+Definition vd_inorder_go :=
+  fix go (l : list (expr * kod)) : comp unit :=
+    match l with
+    | [] => cret tt
+    | (amt, k) :: rest =>
+        cdo r <- visit_expr amt true;
+        expect_type TMonetary r ;;
+        emit_op OP_TAKE_MAX ;; bump 2 ;; emit_op OP_DELETE ;;
+        visit_kod k ;;
+        emit_op OP_FUNDING_SUM ;; bump 3 ;; emit_op OP_MONETARY_ADD ;; bump 1 ;; bump 2 ;;
+        push_integer 2 ;; emit_op OP_FUNDING_ASSEMBLE ;;
+        go rest
+    end.
+Definition vd_allot_go :=
+  fix go (l : list (aportion * kod)) : comp unit :=
+    match l with
+    | [] => cret tt
+    | (_, k) :: rest =>
+        bump 1 ;; emit_op OP_TAKE ;; visit_kod k ;; bump 1 ;; push_integer 2 ;; emit_op OP_FUNDING_ASSEMBLE ;;
+        go rest
+    end.
+Lemma visit_dest_DInOrder : forall l rem,
+  visit_dest (DInOrder l rem) =
+  (emit_op OP_FUNDING_SUM ;; emit_op OP_ASSET ;; push_integer 0 ;; emit_op OP_MONETARY_NEW ;; bump 1 ;;
+   vd_inorder_go l ;;
+   emit_op OP_FUNDING_REVERSE ;; bump 1 ;; emit_op OP_TAKE ;; emit_op OP_FUNDING_REVERSE ;; bump 1 ;;
+   emit_op OP_FUNDING_REVERSE ;;
+   visit_kod rem ;;
+   bump 1 ;; push_integer 2 ;; emit_op OP_FUNDING_ASSEMBLE).
+Proof. reflexivity. Qed.
+Lemma visit_dest_DAllot : forall l,
+  visit_dest (DAllot l) =
+  (emit_op OP_FUNDING_SUM ;; visit_allotment (map fst l) ;; emit_op OP_ALLOC ;; bump (Z.of_nat (length l)) ;;
+   vd_allot_go l).
+Proof. reflexivity. Qed.
+
+Ltac cbs H := repeat (let a := fresh "a" in let s' := fresh "s" in let E := fresh "E" in
+  apply cbind_inv in H; destruct H as (a & s' & E & H)).
+
+Theorem visit_dest_static : forall d s r, visit_dest d s = Some r -> dest_static_exact d = true.
+Proof.
+  apply (dest_ind2 (fun d => forall s r, visit_dest d s = Some r -> dest_static_exact d = true)
+                   (fun k => forall s r, visit_kod k s = Some r -> kod_static_exact k = true)).
+  - intros; reflexivity.
+  - intros l k HF Hk s r H. rewrite visit_dest_DInOrder in H.
+    cb H. cb H. cb H. cb H. cb H. cb H. cb H. cb H. cb H. cb H. cb H. cb H. cb H.
+    cbn [dest_static_exact]. apply andb_true_iff. split; [|exact (Hk _ _ E11)].
+    clear - HF E4. revert s4 a4 s5 E4. induction HF as [|[e k'] l Hk' HF IH]; intros s4 a4 s5 E4; [reflexivity|].
+    cbn [vd_inorder_go] in E4. fold vd_inorder_go in E4. cbn [snd] in Hk'.
+    cb E4. cb E4. cb E4. cb E4. cb E4. cb E4. cb E4. cb E4. cb E4. cb E4. cb E4. cb E4. cb E4.
+    apply andb_true_iff. split; [exact (Hk' _ _ E5) | exact (IH _ _ _ E4)].
+  - intros l HF s r H. rewrite visit_dest_DAllot in H.
+    cb H. cb H. cb H. cb H.
+    cbn [dest_static_exact]. apply andb_true_iff. split; [exact (visit_allotment_static _ _ _ E0)|].
+    clear - HF H. revert s3 r H. induction HF as [|[e k'] l Hk' HF IH]; intros s3 r H; [reflexivity|].
+    cbn [vd_allot_go] in H. fold vd_allot_go in H. cbn [snd] in Hk'.
+    cb H. cb H. cb H. cb H. cb H. cb H.
+    apply andb_true_iff. split; [exact (Hk' _ _ E1) | exact (IH _ _ H)].
+  - intros; reflexivity.
+  - intros d Hd s r H. cbn [visit_kod] in H. cbn [kod_static_exact]. exact (Hd _ _ H).
+Qed.
+
+Definition stmt_static_exact (s : stmt) : bool :=
+  match s with
+  | StSend _ src d =>
+      match src with VSrc _ => true | VSrcAllot l => static_exact (map fst l) end && dest_static_exact d
+  | _ => true
+  end.
+
+Lemma visit_send_static : forall m src d s r, visit_send m src d s = Some r ->
+  stmt_static_exact (StSend m src d) = true.
+Proof.
+  intros m src d s r H. unfold visit_send in H. cb H. unfold visit_destination in H. cb H.
+  cbn [stmt_static_exact]. rewrite (visit_dest_static _ _ _ E0), andb_true_r.
+  destruct src as [sr|l]; [reflexivity|]. destruct m as [e|ae].
+  - cb E. cb E. cb E. cb E. exact (visit_allotment_static _ _ _ E4).
+  - cb E. cb E. discriminate.
+Qed.
+
+Lemma visit_all_static : forall l s r, visit_all visit_stmt l s = Some r -> forallb stmt_static_exact l = true.
+Proof.
+  induction l as [|st l IH]; intros s r H; [reflexivity|]. cbn [visit_all] in H. cb H.
+  cbn [forallb]. rewrite (IH _ _ H), andb_true_r.
+  destruct st; try reflexivity. cbn [visit_stmt] in E. exact (visit_send_static _ _ _ _ _ E).
+Qed.
+
+(* every allotment of a script the compiler accepts is exact *)
+Theorem compile_static_exact : forall sc p, compile sc = Some p -> forallb stmt_static_exact (s_stmts sc) = true.
+Proof.
+  intros sc p H. unfold compile in H. destruct (N.ltb max_vars _); [discriminate|].
+  destruct ((visit_all visit_var (s_vars sc);; visit_all visit_stmt (s_stmts sc)) empty_cstate) as [[u c]|] eqn:E; [|discriminate].
+  cb E. exact (visit_all_static _ _ _ E).
+Qed.
+
+Theorem compiled_send_exact : forall sc p m src d ve, compile sc = Some p -> In (StSend m src d) (s_stmts sc) ->
+  src_exact ve src /\ dest_exact ve d.
+Proof.
+  intros sc p m src d ve Hc Hin. pose proof (compile_static_exact _ _ Hc) as F.
+  rewrite forallb_forall in F. specialize (F _ Hin). cbn [stmt_static_exact] in F.
+  apply andb_true_iff in F. destruct F as [F1 F2]. split.
+  - destruct src as [s|l]; [exact I | exact (static_exact_ok ve _ F1)].
+  - exact (dest_static_exact_ok ve d F2).
 Qed.
